@@ -141,8 +141,14 @@ def deep_check(ctx, res, tr):
     xb = tr.check_whole(ctx.driver)
     res.extra['handler_calls_replayed_on_model'] = res.extra.get('handler_calls_replayed_on_model', 0) + len(tr.hlines)
     res.extra['whole_model_iterations_replayed'] = res.extra.get('whole_model_iterations_replayed', 0) + len(tr.xlines)
-    for _, _, c in tr.hlines:
+    for line, _, c in tr.hlines:
         res.count('handler:%s%s' % (c['name'], ('!' + c['raised']) if c['raised'] else ''))
+        if c.get('expected_state') is not None and c['raised'] is None and c['state_after'] != c['expected_state']:
+            # a request generator must take the step of the state machine that belongs to the request it builds
+            res.fail('generator-wrong-step:%s' % c['name'],
+                     '%s took IKE_SA state %s to %s; the request it built belongs to state %s'
+                     % (c['name'], CP.ST.get(c['state_before'], c['state_before']), CP.ST.get(c['state_after'], c['state_after']),
+                        CP.ST.get(c['expected_state'], c['expected_state'])), {'hcall': line[:4000]})
     for line, want, out, c in hb[:3]:
         res.mismatch('hcall (%s %s%s)' % (c['ep'], c['name'], ('!' + c['raised']) if c['raised'] else ''), MC.first_diff(want, out)[:300], out[:120])
     for line, want, out, c in xb[:3]:
